@@ -16,6 +16,39 @@ ASSUMPTIONS = ["n-ary Add/Mul are nested to the right (pre-order of sub-trees pr
                "matrices with non-integer numeric exponents (square roots) are excluded from the exact layer and covered by the probe only"]
 
 
+def undefined_under(exprs, cond, seed=1):
+    """does the substitution [cond] make at least one of [exprs] undefined (division by zero)?  First symbolically (zoo / nan /
+    oo after substitution); expressions with radicals hide a vanishing denominator behind sqrt((a - b)**2), so the remaining
+    symbols are then given exact rational values (several sign patterns and orderings) and the entries evaluated exactly."""
+    import random
+    import sympy
+    bad = (sympy.zoo, sympy.nan, sympy.oo, -sympy.oo)
+    subs = list(cond.items())
+    es = [e.subs(subs) for e in exprs]
+    for e in es:
+        try:
+            x = sympy.simplify(e)
+        except Exception:   # noqa
+            x = e
+        if any(x.has(b) for b in bad):
+            return True
+    free = sorted(set().union(*[e.free_symbols for e in es]), key=str) if es else []
+    rng = random.Random(seed)
+    for trial in range(12):
+        vals = {sym: sympy.Rational(rng.choice([1, 2, 3, 5, 7, -1, -2, -3]), rng.choice([1, 2, 3])) for sym in free}
+        for e in es:
+            try:
+                v = e.subs(vals)
+                v = sympy.nsimplify(v) if v.is_number else v
+                if any(v.has(b) for b in bad) or v is sympy.zoo:
+                    return True
+            except ZeroDivisionError:
+                return True
+            except Exception:   # noqa
+                continue
+    return False
+
+
 def impl_run(task):
     """builds A (symbolic) and P = simplify(exp(A h)); runs find_singularities; returns everything the
     model needs as text, plus the probe verdicts"""
@@ -74,7 +107,10 @@ def impl_run(task):
                 return "(Fn %d %s)" % (2 + abs(hash(type(e).__name__)) % 50, tr(e.args[0]))
             if e.is_number:
                 unsupported[0] = True
-                return "(Num %s)" % q(sympy.nsimplify(e))
+                try:
+                    return "(Num %s)" % q(sympy.nsimplify(e))
+                except Exception:   # noqa  (e.g. the imaginary unit in a condition of a coupled block: outside the exact layer)
+                    return "(Sym 998)"
             unsupported[0] = True
             return "(Sym 999)"
 
@@ -126,8 +162,7 @@ def impl_run(task):
         fails = []
         if obs is not None:
             for c in obs:
-                Ps = [sympy.simplify(e.subs(list(c.items()))) for e in sympy.flatten(P)]
-                bad = any(x.has(sympy.zoo) or x.has(sympy.nan) or x.has(sympy.oo) for x in Ps)
+                bad = undefined_under(list(sympy.flatten(P)), c)
                 As = [sympy.simplify(e.subs(list(c.items()))) for e in sympy.flatten(A)]
                 abad = any(x.has(sympy.zoo) or x.has(sympy.nan) or x.has(sympy.oo) for x in As)
                 if not bad:
@@ -211,9 +246,8 @@ def impl_e2e(task):
             As = [sympy.simplify(e.subs(list(c.items()))) for e in sympy.flatten(A)]
             if any(x.has(sympy.zoo) or x.has(sympy.nan) or x.has(sympy.oo) for x in As):
                 fails.append("analysis() reports the condition %s, which makes the system matrix itself undefined" % {str(k): str(v) for k, v in c.items()})
-            Ps = [sympy.simplify(e.subs(list(c.items()))) for e in sympy.flatten(P)]
-            if not any(x.has(sympy.zoo) or x.has(sympy.nan) or x.has(sympy.oo) for x in Ps):
-                fails.append("analysis() reports the condition %s, which makes no returned propagator undefined" % {str(k): str(v) for k, v in c.items()})
+            if not undefined_under(list(sympy.flatten(P)), c):
+                fails.append("analysis() reports the condition %s, which makes no returned propagator undefined (symbolically, and at 12 exact rational valuations of the other symbols)" % {str(k): str(v) for k, v in c.items()})
         canon = lambda lst: sorted(sorted((str(k), str(sympy.simplify(v))) for k, v in c.items()) for c in lst)
         whole = None
         if not could_not:
@@ -300,6 +334,10 @@ FIXED = [
     {"n": 1, "entries": [(0, 0, "-a0")], "symbols": ["a0", "k"], "P_override": ["a0**k/(a0 - 1)"], "expected_pairs": [], "kind": "symbolic_exponent"},
     {"n": 2, "entries": [(0, 0, "-a0"), (1, 1, "-a1"), (1, 0, "1")], "symbols": ["a0", "a1"], "expected_pairs": [("a0", "a1")], "kind": "chain"},
     {"n": 2, "entries": [(0, 0, "-a0"), (1, 0, "1")], "symbols": ["a0"], "expected_pairs": [("a0", "0")], "kind": "chain"},
+    # coupled (non-triangular) blocks: the propagator contains the square root of a symbolic discriminant (soundness only)
+    {"n": 2, "entries": [(0, 1, "1"), (1, 0, "-k"), (1, 1, "-1/tau")], "symbols": ["k", "tau"], "expected_pairs": [], "kind": "coupled"},
+    {"n": 2, "entries": [(0, 0, "-a0"), (0, 1, "b"), (1, 0, "b"), (1, 1, "-a1")], "symbols": ["a0", "a1", "b"], "expected_pairs": [], "kind": "coupled"},
+    {"n": 2, "entries": [(0, 1, "1"), (1, 0, "-k"), (1, 1, "-2")], "symbols": ["k"], "expected_pairs": [], "kind": "coupled"},
     {"n": 3, "entries": [(0, 0, "-a0"), (1, 1, "-a1"), (1, 0, "1"), (2, 1, "2")], "symbols": ["a0", "a1"], "expected_pairs": [("a0", "a1"), ("a0", "0"), ("a1", "0")], "kind": "chain"},
 ]
 
@@ -311,7 +349,7 @@ def run(ctx):
     quick = ctx["tier"] == "quick"
     specs = list(FIXED) + [gen_spec(rng) for _ in range(28 if quick else 200)]
     chunks = [specs[i::C.NPROC] for i in range(C.NPROC)]
-    e2e_specs = [gen_multiblock(rng) for _ in range(10 if quick else 80)] + [sp for sp in specs if sp["kind"] in ("chain", "tree", "chain_tau", "repeat") and not sp.get("P_override")][: (6 if quick else 40)]
+    e2e_specs = [gen_multiblock(rng) for _ in range(10 if quick else 80)] + [sp for sp in specs if sp["kind"] in ("chain", "tree", "chain_tau", "repeat", "coupled") and not sp.get("P_override")][: (9 if quick else 40)]
     e2e_chunks = [e2e_specs[i::C.NPROC] for i in range(C.NPROC)]
     main_tasks = [{"fn": "c11.impl_run", "specs": ch, "timeout": 900} for ch in chunks if ch]
     allres = C.run_tasks(main_tasks + [{"fn": "c11.impl_e2e", "specs": ch, "timeout": 900} for ch in e2e_chunks if ch], timeout=900)
